@@ -93,6 +93,7 @@ func runC01Types(c *Ctx, w *ATWorld) {
 						"UPDATE " + t + " SET v = " + cl.v1 + " WHERE id <= 2", "DELETE FROM " + t + " WHERE id <= 2"}[qi]
 					before := w.DumpTable(t)
 					w.coord.ResetLog()
+					stmts0 := w.Eng.OpenStmts()
 					var execErr error
 					var xid string
 					crash := safeCall(func() {
@@ -123,6 +124,8 @@ func runC01Types(c *Ctx, w *ATWorld) {
 						class = "rollback_reported_failed"
 					case final != before:
 						class = "rollbacked_but_not_restored"
+					case w.Eng.OpenStmts() > stmts0:
+						class = "prepared_statement_left_open"
 					}
 					c.Out.Case(cid, "C01", "skip", "skip")
 					c.Out.Oracle(cid, class == "", class, fmt.Sprintf("%s column, %s, only-care=%v: %s | err=%v before=%s mid=%s final=%s crash=%s", cl.name, ser, onlyCare, q, execErr, before, mid, final, crash))
